@@ -62,8 +62,23 @@ impl<'a> Cur<'a> {
         r
     }
 }
+/// the scripted error for code `a`: codes 1..7 are `io::Error::from(kind)`; codes 101..107 deliver the SAME kind in another
+/// representation (a raw OS error where Linux has an errno of that kind, a custom error otherwise)
+pub fn make_err(a: u64) -> std::io::Error {
+    if a < 100 {
+        return std::io::Error::from(kind_of(a));
+    }
+    match a % 100 {
+        3 => std::io::Error::from_raw_os_error(4),    // EINTR
+        4 => std::io::Error::from_raw_os_error(11),   // EAGAIN
+        5 => std::io::Error::from_raw_os_error(110),  // ETIMEDOUT
+        6 => std::io::Error::from_raw_os_error(104),  // ECONNRESET
+        k => std::io::Error::new(kind_of(k), "scripted"),
+    }
+}
+
 pub fn kind_of(code: u64) -> ErrorKind {
-    match code {
+    match code % 100 {
         1 => ErrorKind::InvalidData,
         2 => ErrorKind::UnexpectedEof,
         3 => ErrorKind::Interrupted,
@@ -152,7 +167,7 @@ impl AsyncRead for AScriptReader {
                 }
                 Poll::Ready(Ok(()))
             }
-            1 => Poll::Ready(Err(std::io::Error::from(kind_of(a)))),
+            1 => Poll::Ready(Err(make_err(a))),
             2 => panic!("scripted reader panic"),
             _ => {
                 me.pendings += 1;
@@ -179,7 +194,7 @@ impl AScriptWriter {
 fn unit_res(tag: u64, a: u64, cx: &mut Context<'_>) -> Poll<std::io::Result<()>> {
     match tag {
         0 => Poll::Ready(Ok(())),
-        1 => Poll::Ready(Err(std::io::Error::from(kind_of(a)))),
+        1 => Poll::Ready(Err(make_err(a))),
         2 => panic!("scripted writer panic"),
         _ => {
             cx.waker().wake_by_ref();
@@ -195,7 +210,7 @@ impl AsyncWrite for AScriptWriter {
         enc_bytes(&mut me.log, data);
         match tag {
             0 => Poll::Ready(Ok((a.min(data.len() as u64)) as usize)),
-            1 => Poll::Ready(Err(std::io::Error::from(kind_of(a)))),
+            1 => Poll::Ready(Err(make_err(a))),
             2 => panic!("scripted writer panic"),
             _ => {
                 cx.waker().wake_by_ref();
